@@ -1,4 +1,4 @@
-import FluteModel.Lemmas.SchedTime
+import FluteModel.Lemmas.SchedPrio
 /-
   C14 - Timing.  Time is `Nat` nanoseconds supplied by the caller with every `read` / `publish`; the one
   floating point computation (`packet_transmission_tick = duration.div_f64(n)`) is an input of the transfer
@@ -77,6 +77,27 @@ theorem pacing_lower_bound_target (cfg : Cfg) (tbl : List Nat) (ops : List Op) (
   calc idx * target ≤ idx * ((tk + 1) * n) := Nat.mul_le_mul_left _ hr
     _ = (idx * tk + idx) * n := by rw [← Nat.mul_assoc, Nat.mul_add, Nat.mul_one]
     _ ≤ (now - (TM.run toi pre).tStart + idx) * n := Nat.mul_le_mul_right _ (by omega)
+
+/-- Pacing progress: a due packet is not held back.  After every operation history, if a slot of queue `q` holds a
+    transfer whose pacing gate is open at `now` (`next_transfer_timestamp ≤ now`, or not paced) and which still
+    has packets, the FIRST `read(now)` returns a packet - an FDT packet, or an object packet of priority `≤ q.prio`
+    (of `q` itself or of a queue before it; a same-priority peer of a multiplexed queue may go first, the slots
+    being served round robin) - never `None` and never a lower-priority packet. -/
+theorem pacing_progress (cfg : Cfg) (tbl : List Nat) (ops : List Op) (pre post : List QSess) (q : QSess)
+    (j : Nat) (c : Cur) (f : FileDesc) (now : Nat) (ticks : List (Nat × Nat))
+    (hsorted : (cfg.queues.map (fun x => x.1)).Pairwise (fun a b => a < b))
+    (hsess : (run (init cfg tbl) ops).sessions = pre ++ q :: post)
+    (hjs : q.slots[j]? = some (some c)) (hf : getF (run (init cfg tbl) ops).objs c.key = some f)
+    (hdue : ∀ ts, f.info.nextTs = some ts → ts ≤ now) (hs : c.enc.stopped = false) (hlt : c.enc.sent < f.nPk) :
+    (read (run (init cfg tbl) ops) now ticks).2 ≠ Out.none ∧
+    ∀ p t i b, (read (run (init cfg tbl) ops) now ticks).2 = Out.pkt p t i b → p ≤ q.prio := by
+  have hg : gateBlocked f now = false := by
+    unfold gateBlocked
+    cases hn : f.info.nextTs with
+    | none => rfl
+    | some ts => have := hdue ts hn; simp; omega
+  obtain ⟨h1, h2⟩ := read_due cfg tbl ops pre post q j c f now ticks hsess hjs hf hg hs hlt
+  exact ⟨h1, fun p t i b e => prio_le_of_sorted cfg tbl ops pre post q hsorted hsess p (h2 p t i b e)⟩
 
 /-- Degenerate inputs are safe: no Rust panic in any history, for any configuration (incl. empty objects with
     a target duration / deadline - repaired defect D4: not paced -, `fdt_start_id = u32::MAX` - repaired
